@@ -66,7 +66,10 @@ func RegisterLevel(levelValue Level, title string, opts ...RegOpt) error {
 			return fmt.Errorf("the given level %q is duplicated with %q", shortTagMap[5][v], v)
 		}
 	}
-	if l, ok := stringToLevel[title]; ok {
+	// ParseLevel looks names up case-insensitively (lower-cased), so the
+	// name index has to be keyed the same way.
+	nameKey := strings.ToLower(title)
+	if l, ok := stringToLevel[nameKey]; ok {
 		// return errorsv2.New("the title %q has been used for %q", title, l)
 		return fmt.Errorf("the title %q has been used for %q", title, l)
 	}
@@ -82,7 +85,7 @@ func RegisterLevel(levelValue Level, title string, opts ...RegOpt) error {
 
 	allLevels = append(allLevels, levelValue)
 	levelToString[levelValue] = title
-	stringToLevel[title] = levelValue
+	stringToLevel[nameKey] = levelValue
 
 	for i := 0; i < MaxLengthShortTag; i++ {
 		if str := pack.shortTags[i]; str != "" {
